@@ -3,7 +3,7 @@ CONSTANTS
   Keeps = {99, 0, 1, 2, 3}
   Vals = {1, 2}
   Variant = "intended"
-  MaxAllocs = 9
+  MaxAllocs = 7
 SPECIFICATION Spec
 CONSTRAINT Bound
 INVARIANTS NeverHandsOutInUse CtorDtorBalanced ParkedSound ParkedBounded NoWildAccess
